@@ -42,6 +42,21 @@ class NumBase:
         return None
 
 
+class ViewBase:
+    """A Name->number dict known only through `.get(k, 0)`: view(k) is that value.
+    (Observationally exact for readers that use get-with-default-0, which is the only way
+    the numeric accumulator is read; anything else on such a dict is unsupported.)"""
+    def __init__(self, view_fn, tag):
+        self.view_fn = view_fn
+        self.tag = tag
+
+    def get(self, I, key):
+        raise Unsupported("a get-with-default-0 view was read in another way")
+
+    def __repr__(self):
+        return f"ViewBase({self.tag})"
+
+
 class RegexObj:
     def __init__(self, pattern):
         self.pattern = pattern
@@ -479,6 +494,11 @@ class Builtins:
         i = self.dict_find(d, key)
         if i is not None:
             return d.entries[i][1]
+        if isinstance(d.base, ViewBase):
+            if not (isinstance(default, int) and not isinstance(default, bool) and default == 0):
+                raise Unsupported("get on an accumulator view with a default other than 0")
+            k = self.key_term(key)
+            return SNum(d.base.view_fn(k), z3.Bool(self.path.fresh_name("acc_value_is_int")))
         if d.base is not None:
             v = d.base.get(self.I, key)
             if v is not None:
@@ -608,6 +628,7 @@ class Builtins:
                 if isinstance(v, bool):
                     return True
                 if is_num(v):
+                    self.int_invariant(v)
                     return py_is_int(v)
                 return False
             if cls.name == "float":
@@ -627,6 +648,11 @@ class Builtins:
                 return False
             return v.cls.is_subclass_of(cls)
         return self.I.contracts.child_isinstance(self.I, v, cls)
+
+    def int_invariant(self, v):
+        """Type invariant: a number whose Python type is int has an integral value."""
+        if isinstance(v, SNum) and not isinstance(v.pyint, bool) and not z3.is_int(v.term):
+            self.path.assume(z3.Implies(v.pyint, z3.IsInt(v.term)))
 
     def b_len(self, a, k):
         v = a[0]
@@ -672,6 +698,7 @@ class Builtins:
             if z3.is_int(v.term):
                 return mk_num(v.term, True)
             # round(float) -> nearest int, ties to even
+            self.int_invariant(v)
             x = v.term
             r = self.path.fresh("round", sym.I)
             rr = z3.ToReal(r)
